@@ -22,7 +22,13 @@ LEVEL = 'exploration'
 RULE = ('case = cloud (gcp | azure, front_end.CLOUD patched per case) x generated configuration (1-6 pools: worker_type and '
         'worker_cores from the cloud\'s documented tables, preemptible, label in {"",x}, local-SSD vs external disk obeying the '
         'driver\'s pool-config form rules, boot disk, some pools / the job-private collection deliberately of the other cloud, '
-        'generated resource rates; configuration loaded alternately by InstanceCollectionConfigs.create and .refresh) x 1-12 requests, 3 in 4 aimed at one configured pool (its label, preemptibility, packable cpu values up to and beyond worker_cores) (resources dict: cpu / memory / storage strings from the size grammar incl. '
+        'generated resource rates; configuration loaded alternately by InstanceCollectionConfigs.create and .refresh) x 1-12 requests, 3 in 4 aimed at one configured pool (its label, preemptibility, packable cpu values up to and beyond worker_cores); '
+        'when the configuration has a pool of the case\'s cloud whose worker_cores C is not a power of two (gcp 96; azure D48, E20/E48, F48/F72) 1 request in 4 '
+        'is aimed at that pool\'s window (P2, C], P2 = largest power of two below C: cpu mostly small and packable, else P2 .. C +- 250m, C+1, 2*P2; '
+        'memory = the pool\'s per-core share of P2-0.25 .. C+0.25 cores to the mcpu (bytes, Ki, Mi, MiB, Gi, M, G spellings rounded up) and the exact '
+        'window edges +-1 byte - requests that fit one worker but that no packable core count <= C can hold, class nonpow2_window '
+        '(counted per request whose needed cores lie in the window of some candidate pool, however it was generated) '
+        '(resources dict: cpu / memory / storage strings from the size grammar incl. '
         'invalid and sub-mcpu values, values on and 1 byte around every pool\'s power-of-two memory and core boundaries, '
         'lowmem|standard|highmem, storage 0 / tiny / ~10Gi / around the cloud maximum / huge, machine_type valid / other cloud / '
         'bogus, pool_label, preemptible, forbidden combinations, jvm process). Each request = one validate_and_clean_jobs + one '
@@ -41,6 +47,10 @@ ASSUMPTIONS = [
     'environment at import); everything else is the unmodified front end',
     'transactions execute one at a time (minimysql); one request per _create_jobs call, update never committed',
     'machine_type "" may be read either as an unknown machine type (400) or as no machine type; only a crash is reported for it',
+    'a crash carrying the stack signature of one of the two known non-power-of-two-pool findings is attributed to that finding only when the '
+    'finding\'s trigger holds by the oracle\'s own brute force: the request is resolved by pricing (no machine type, no named memory class) and '
+    'some candidate pool of the offending kind can hold it with a packable core count <= worker_cores (only then does the real selection reach '
+    'price_per_hour for that pool); the same crash outside the trigger is reported as granted-beyond-worker:* (class crash_outside_known_trigger)',
 ]
 TRUSTED = ['vlib/minimysql (jobs insert + triggers), vlib/batchsim World start-up', 'documented tables and brute-force feasibility '
            'search in checks/c12.py', 'checks/c25.py reference recogniser/exact parser (independent of hailtop parse.py)']
@@ -247,6 +257,54 @@ def feasible_in_pool(cloud, p, it):
     return None
 
 
+def is_pow2(n):
+    return n > 0 and n & (n - 1) == 0
+
+
+def pow2_below(n):
+    """Largest power of two strictly below n (n >= 2)."""
+    p = 1
+    while p * 2 < n:
+        p *= 2
+    return p
+
+
+def in_nonpow2_window(cloud, p, it):
+    """The request fits the cores and memory of one worker of pool p, but no packable (250 mcpu x 2^k) core count that fits
+    the worker can hold it: its needed cores lie in (largest power of two below worker_cores, worker_cores].  Only pools whose
+    worker_cores is not a power of two have such a window; packability would round the grant beyond the worker."""
+    top = p['cores'] * 1000
+    return (not is_pow2(p['cores']) and it['storage'] <= DOC[cloud]['max_storage_gib'] * GIB
+            and feasible_in_pool(cloud, p, it) is None and it['mcpu'] <= top and core_share(cloud, p['wt'], top) >= it['mem'])
+
+
+# The two known crash findings (known_findings.json) and the exact trigger condition of each: the cheapest-price selection
+# prices (price_per_hour) a candidate pool only after that pool answered the request with a grant, so the crash is that
+# finding only if some candidate pool of the offending kind can hold the request on one worker.  A crash with the same
+# signature outside its trigger means a pool that cannot hold the request was granted and priced - a different failure.
+KNOWN_CRASH_TRIGGER = {
+    'crash:AssertionError:batch/instance_config.py:quantified_resources':
+        lambda cloud, p: not is_pow2(p['cores']) and not (cloud == 'gcp' and p['wt'] == 'standard' and p['cores'] == 96),
+    'crash:AssertionError:gcp/instance_config.py:create':
+        lambda cloud, p: cloud == 'gcp' and p['wt'] == 'standard' and p['cores'] == 96,
+}
+
+
+def pricing_view(case, req):
+    """-> (it, candidates) if the request is one the front end resolves by pricing candidate pools (no validation cause, no
+    machine type, no named memory class), else (None, [])."""
+    cloud = case['cloud']
+    res = req.get('res')
+    if isinstance(res, dict) and res.get('machine_type') == '':
+        req = dict(req, res={k: v for k, v in res.items() if k != 'machine_type'})
+    if causes(req, cloud):
+        return None, []
+    it = interpret(req, cloud)
+    if it['kind'] != 'pool':
+        return None, []
+    return it, pool_candidates(case, it)
+
+
 # ------------------------------------------------------------------------------------------------------------------------
 # configuration
 def normalise_pool(p):
@@ -430,7 +488,24 @@ def judge(case, req, out):
         cs = causes(req, cloud)
     if out['kind'] == 'crash':
         cls.append('crash')
-        fail(out['signature'], 'every request is either rejected (400) or placed',
+        sig = out['signature']
+        pit, pcands = pricing_view(case, req)
+        if pit is not None and any(in_nonpow2_window(cloud, p, pit) for _, p in pcands):
+            cls.append('nonpow2_window')
+        trigger = KNOWN_CRASH_TRIGGER.get(sig)
+        if trigger is not None and not (pit is not None and pit['wt'] is None and any(
+                trigger(cloud, p) and feasible_in_pool(cloud, p, pit) is not None for _, p in pcands)):
+            # same stack as a known finding, but its trigger condition does not hold: not that finding
+            cls.append('crash_outside_known_trigger')
+            inwin = [f'p{i}' for i, p in pcands if trigger(cloud, p) and in_nonpow2_window(cloud, p, pit)] if pit is not None else []
+            fail('granted-beyond-worker:' + sig.split(':')[-1], 'granted cores fit on one worker (a pool that cannot hold the request '
+                 'on one worker is never granted / priced)',
+                 f'_create_jobs raised {out["message"]}, which happens only when a pool of that kind answered the request with a '
+                 f'grant, but no such candidate pool can hold the request with a packable core count <= worker_cores'
+                 + (f' (request lies in the non-power-of-two window of {inwin}: needs more than the largest power of two below '
+                    f'worker_cores, packability rounds it beyond the worker)' if inwin else ''))
+            return cls, False, fails
+        fail(sig, 'every request is either rejected (400) or placed',
              f'_create_jobs raised instead of answering: {out["message"]} (documented causes holding: {sorted(cs)})')
         return cls, False, fails
     if out['kind'] == 'http' and out['status'] != 400:
@@ -498,6 +573,8 @@ def judge(case, req, out):
         cls.append('multi_candidate')
     if any(it['mcpu'] == p['cores'] * 1000 for _, p in cands):
         cls.append('cpu_eq_worker_cores')
+    if any(in_nonpow2_window(cloud, p, it) for _, p in cands):
+        cls.append('nonpow2_window')
     if cause == 'unsat':
         cls.append('unsat')
         if not cands:
@@ -694,6 +771,62 @@ def strategies(cloud):
         _pool_lists[key] = (cpus, bnd, mine * 4 + list(MEMCLASSES))
         return _pool_lists[key]
 
+    _win_lists = {}
+
+    def win_lists(p):
+        """Values around the window (P2, C] of a pool whose worker_cores C is not a power of two (P2 = largest power of two
+        below C): requests that fit one worker but that no packable core count <= C can hold."""
+        key = (p['cloud'], p['wt'], p['cores'])
+        if key in _win_lists:
+            return _win_lists[key]
+        per = DOC[p['cloud']]['per_core_mib'][p['wt']] * MIB
+        C, P2 = p['cores'], pow2_below(p['cores'])
+        small = [250, 250, 1000, 1000, 500, 2000, P2 * 500, P2 * 1000]                 # packable: memory decides
+        wcpu = [P2 * 1000, P2 * 1000 + 250, (P2 + 1) * 1000, (P2 + C) // 2 * 1000, (C - 1) * 1000, C * 1000 - 250, C * 1000, C * 1000,
+                C * 1000 + 250, (C + 1) * 1000, 2 * P2 * 1000]
+        wmem = [P2 * per, P2 * per + 1, P2 * per + MIB, (P2 + 1) * per, (P2 + C) // 2 * per, (P2 + C) * per // 2 + 1, (C - 1) * per,
+                C * per - 1, C * per, C * per, C * per + 1, (C + 1) * per, 2 * P2 * per]
+        _win_lists[key] = (small, wcpu, wmem, per, C, P2)
+        return _win_lists[key]
+
+    def mem_str(b, style):
+        """A memory string worth b bytes (styles 0, 1) or the smallest value of a coarser unit that is >= b."""
+        if style == 0:
+            return str(b)
+        if style == 1:
+            return f'+{b}'
+        if style == 2:
+            return f'{-(-b // 1024)}Ki'
+        if style == 3:
+            return f'{-(-b // MIB)}Mi'
+        if style == 4:
+            return f'{-(-b // MIB)}MiB'
+        if style == 5:
+            return f'{-(-b * 1000 // GIB) // 1000}.{-(-b * 1000 // GIB) % 1000:03d}Gi'
+        if style == 6:
+            return f'{-(-b // 10 ** 6)}M'
+        return f'{-(-b // 10 ** 7) // 100}.{-(-b // 10 ** 7) % 100:02d}G'
+
+    def gen_win_cpu(draw, p):
+        small, wcpu, _wmem, _per, _C, _P2 = win_lists(p)
+        k = draw(upto(9))
+        if k < 6:
+            return mcpu_str(pick(draw, small), draw(upto(5)))
+        if k < 9:
+            return mcpu_str(pick(draw, wcpu), draw(upto(5)))
+        return gen_cpu(draw, p)
+
+    def gen_win_mem(draw, p):
+        _small, _wcpu, wmem, per, C, P2 = win_lists(p)
+        k = draw(upto(9))
+        if k < 3:
+            return mem_str(pick(draw, wmem), draw(upto(7)))
+        if k < 9:
+            # a per-core share of P2 - 0.25 .. C + 0.25 cores, to the mcpu
+            eq = P2 * 1000 - 250 + draw(upto((C - P2) * 1000 + 500))
+            return mem_str(eq * per // 1000, draw(upto(7)))
+        return gen_mem(draw, p)
+
     def gen_number(draw):
         if draw(upto(1)):
             return f'{draw(upto(130))}.{pick(draw, FRACS)}'
@@ -739,6 +872,21 @@ def strategies(cloud):
         with_mt = shape in (1, 2, 3, 4)
         forbidden = shape == 4
         aimed = draw(upto(7)) < 6
+        npw = [q for q in pools if q['cloud'] == cloud and not is_pow2(q['cores'])] if shape >= 18 else []
+        if npw:
+            # aimed at the window of a pool whose worker_cores is not a power of two: fits one worker, but only with a
+            # core count between the largest power of two below worker_cores and worker_cores (and values just around it)
+            p = npw[draw(upto(len(npw) - 1))]
+            if draw(upto(9)) < 8:
+                res['cpu'] = gen_win_cpu(draw, p)
+            res['memory'] = gen_win_mem(draw, p)
+            if draw(upto(9)) < 3:
+                res['storage'] = gen_storage(draw)
+            if p['label'] or draw(upto(1)):
+                res['pool_label'] = p['label']
+            if not p['pre'] or draw(upto(1)):
+                res['preemptible'] = bool(p['pre'])
+            return {'res': res, 'jvm': draw(upto(11)) == 0}
         if with_mt:
             res['machine_type'] = pick(draw, own_m) if draw(upto(4)) < 4 else pick(draw, OTHER_M)
         if (not with_mt and draw(upto(9)) < 8) or (forbidden and draw(upto(1))):
